@@ -498,3 +498,60 @@ def heap_property(prop, tier, seed):
 
     rep.rerun_witness = rerun
     return rep
+
+
+# =========================================================================== C19
+def lib_property(prop, tier, seed):
+    from . import libprops
+
+    root = REPO
+    repo = Repo(root)
+    rep = Report(prop, tier, seed, "other", "./check %s --tier %s" % (prop, tier))
+    rep.trusted = ["import machinery (importlib, pkgutil.walk_packages, exec_module) and collections.Counter are assumed; load_commands is not under contract",
+                   "expression-level contracts: the deciding sub-expressions of Program.__init__ / CommandMeta.__new__ are located by shape in the AST; "
+                   "a body that no longer has that shape is undecided, not accepted"]
+    recs, functions = libprops.records(repo)
+    rep.functions = functions
+    for r in recs:
+        rep.add_vc(r["name"], r["status"], r["function"], r["clause"], r["backend"], r["time_s"], detail={"goal": r["goal"], "reason": r.get("reason")})
+        if r["status"] == "sat":
+            rep.violations.append({"obligation": r["name"], "function": r["function"], "how": "counter-model", "detail": {"goal": r["goal"]},
+                                   "solver_output": "sat (%s)" % r["backend"], "confirmed": False})
+        elif r["status"] != "unsat":
+            rep.undecided.append({"obligation": r["name"], "reason": r.get("reason") or "unknown"})
+    rep.samples = [{"obligation": r["name"], "goal": r["goal"], "verdict": r["status"]} for r in recs[:4]]
+    t0 = time.time()
+    cases = libprops.cases(tier, seed)
+    outs = libprops.run_real(cases, root)
+    distinct, fails = set(), 0
+    for c, o in zip(cases, outs):
+        distinct.add(json.dumps([c["history"], c["final"]]))
+        bad = libprops.judge(c, o)
+        if any(b[0] == "harness-error" for b in bad):
+            rep.errors.append("registry battery: %s" % (bad[0][1],))
+            continue
+        if bad:
+            fails += 1
+            rep.violations.append({"obligation": "mpilot/program.py::Program.__init__/bounded:lookup", "function": "mpilot/program.py::Program.__init__",
+                                   "how": "bounded-concrete", "case": {"history": c["history"], "final": c["final"]}, "real": o,
+                                   "violated": [b[0] for b in bad], "violated_detail": bad, "confirmed": True})
+    rep.bounded = {"label": "bounded (never counted as proved)", "evaluations": len(cases), "distinct_nontrivial": len(distinct), "failures": fails,
+                   "wall_s": round(time.time() - t0, 1),
+                   "rule": "five generated packages with prefix-related names (plug, plugx, plug_y, pl, other.plug), duplicate and renamed commands; "
+                           "every ordered selection of one or two libraries x histories of earlier Program constructions and run-time class definitions; "
+                           "each final construction is run after the history and in a fresh interpreter and compared with the statement's answer"}
+    rep.explanation = ("Proved (SMT, strings): the registry-selection predicate of Program.__init__ equals `module == lib or module starts with lib + '.'`; "
+                       "duplicates are counted per command name among the selected entries with threshold > 1 and raise MPilotError; command_library maps "
+                       "name -> class over exactly the selected entries; CommandMeta.__new__ registers a class iff no entry with the same (module, command "
+                       "name) exists and never removes entries. History independence then follows (lemma HISTORY, DESIGN C19). Not proved: load_commands / "
+                       "the import system, Counter - covered by the bounded history battery on the real code.")
+
+    def rerun(w):
+        if not w or w.get("kind") != "registry-case":
+            return None
+        c = dict(w["case"], packages=libprops.PKGS)
+        o = libprops.run_real([c], root)[0]
+        return [b[0] for b in libprops.judge(c, o)]
+
+    rep.rerun_witness = rerun
+    return rep
